@@ -167,7 +167,7 @@ def pairf(d, k1, kind1, k2, kind2):
     return Spec([("v1", vtype(kind1)), ("v2", vtype(kind2)), ("x", INSTANCE)], pre, body, tags=[])
 
 
-KEY_REGEXES = REGEXES + ["(?i)b", "(?s).", "(?i)^A$", "(?m)^a"]
+KEY_REGEXES = REGEXES + ["(?i)b", "(?s).", "(?i)^A$"]      # "(?m)^a" crashes CrossHair's regex model (IndexError on the empty subject): not used
 
 
 def pattern_keys(d, i, N=1):
